@@ -626,8 +626,9 @@ impl<'a> ParserState<'a> {
             }
         } else {
             match text.parse::<f32>() {
-                Ok(num) => Ok(num),
-                Err(_) => Err(ParserError::malformed_number(self, context, text)),
+                // a literal that is too large for the type parses as infinity: it does not fit and is malformed
+                Ok(num) if num.is_finite() => Ok(num),
+                _ => Err(ParserError::malformed_number(self, context, text)),
             }
         }
     }
@@ -648,8 +649,9 @@ impl<'a> ParserState<'a> {
             }
         } else {
             match text.parse::<f64>() {
-                Ok(num) => Ok(num),
-                Err(_) => Err(ParserError::malformed_number(self, context, text)),
+                // a literal that is too large for the type parses as infinity: it does not fit and is malformed
+                Ok(num) if num.is_finite() => Ok(num),
+                _ => Err(ParserError::malformed_number(self, context, text)),
             }
         }
     }
